@@ -16,7 +16,10 @@ RULE = ("case = (generated program whose user functions are renamed to 40-90 cha
         "Oracle: aldor -Fc -Fmain exits 0; every emitted .c compiles with gcc against the shipped foam_c.h; the objects link against the shipped "
         "libaldor.a / libfoam.a; the executable prints the same '@ ' lines with the same exit class as the default-option build (identifier-length "
         "settings other than the default are link-checked only while known finding C16-K6 is listed: the prebuilt libraries were generated with "
-        "the default limit). Non-trivial = options differ from the default and (smax in {1,5} implies >= 2 C files were emitted); distinct = "
+        "the default limit). Two further families: (a) the program's functions compiled as a separate library unit and linked with the client unit under the same "
+        "options, prefix length >= 58, output compared with the reference evaluator's lines; (b) for one program per worker the statement limit at "
+        "which splitting stops is found by bisection on the number of emitted C files and -Csmax is swept over 12 values at and just below it, with "
+        "-Cstandard and -Cold. Non-trivial = options differ from the default and (smax in {1,5} implies >= 2 C files were emitted); distinct = "
         "(program, option tuple).")
 ASSUMPTIONS = ["limits below the default identifier length are not generated (the property excludes them)"]
 K6_KNOWN = any(f["id"] == "C16-K6-idlen-vs-prebuilt-libs" for f in findings.known(ID))
@@ -79,6 +82,92 @@ def check(tc, src, copts, ev, h, run_it=True):
         shutil.rmtree(base, ignore_errors=True)
 
 
+def build_split(tc, wd, lib, cl, copts, level="-Q1"):
+    """library unit + client unit, both compiled to C under the same options, linked into one executable"""
+    R.write(os.path.join(wd, "lb.as"), lib)
+    R.write(os.path.join(wd, "cl.as"), cl)
+    r = aldor.compile_(tc, wd, ["lb.as"], [level, "-Fao", "-Fc"] + list(copts), cpu=120)
+    o = PC.classify_compile(tc, r)
+    if o is not None:
+        return o, None
+    r = aldor.compile_(tc, wd, ["cl.as"], [level, "-Fc", "-Fmain"] + list(copts), cpu=120)
+    o = PC.classify_compile(tc, r)
+    if o is not None:
+        return o, None
+    cs = sorted(glob.glob(os.path.join(wd, "*.c")))
+    exe = os.path.join(wd, "p.exe")
+    g = R.run(["gcc", "-w", "-O0", "-I" + tc.srcdir, "-I" + wd, "-o", exe] + cs + tc.linklibs("aldor"), cwd=wd, cpu=300, as_limit=0)
+    if not g.ok:
+        return PC.Outcome("ccfail", text=(g.text() + g.err.decode("latin-1"))[-700:], res=g), None
+    return None, exe
+
+
+def check_split(tc, pr, plen, copts, ev, h):
+    """two units: the long-named functions are exported globals of the library unit, bound by their C names at link / load time.
+    Oracle: the reference evaluator's lines (a name clash between two globals is wrong under every option set alike)."""
+    try:
+        want, wcls, _ = P.evaluate(pr)
+    except P.OutOfModel:
+        return None, False
+    lib, cl = P.render_split(pr)
+    lib, cl = long_names(lib, plen, 0), long_names(cl, plen, 0)
+    base = os.path.join(R.WORK, "c16s-%d-%s" % (os.getpid(), h))
+    shutil.rmtree(base, ignore_errors=True)
+    os.makedirs(base)
+    try:
+        case = {"split": True, "lib": lib, "client": cl, "copts": list(copts), "want": want, "wcls": wcls}
+        o, exe = build_split(tc, base, lib, cl, copts)
+        nfun = len(set(re.findall(r"\b\w+(?:fn|ov|mk|gn)\d+Tail\b", cl)))
+        nt = nfun >= 2
+        if o is not None:
+            if o.kind in ("rejected",) and not copts:
+                ev.classes["split_unit_rejected"] += 1     # e.g. a macro-only dependency the library unit cannot satisfy
+                return None, False
+            ev.classes["split_" + o.kind] += 1
+            if o.kind == "rejected":
+                return None, False
+            return Fail({"kind": "split-" + o.kind, "site": o.site, "copts": " ".join(copts), "what": "two-unit build under options [%s]: %s" % (" ".join(copts), o.brief()[:400])}, case), nt
+        e = aldor.run_exe(exe, base)
+        got = aldor.marker_lines(e)
+        cls = "signal%s" % e.sig if e.sig else ("ok" if e.rc == 0 else "fail")
+        if got != want or cls != wcls:
+            i, a, b = PC.first_diff(want, got)
+            return Fail({"kind": "split-behaviour-differs", "copts": " ".join(copts), "exit": cls,
+                         "what": "two-unit executable under options [%s]: exit %s (expected %s); line %d: expected %r, got %r" % (" ".join(copts), cls, wcls, i, a, b)}, case), nt
+        return None, nt
+    finally:
+        shutil.rmtree(base, ignore_errors=True)
+
+
+def nfiles(tc, src, smax, tag):
+    with R.WorkDir("c16n-" + tag) as wd:
+        PC.write_prog(wd, src)
+        r = aldor.compile_(tc, wd, ["p.as"], ["-Q1", "-Fc", "-Fmain", "-Csmax=%d" % smax], cpu=120)
+        if PC.classify_compile(tc, r) is not None:
+            return None
+        return len(glob.glob(os.path.join(wd, "*.c")))
+
+
+def smax_window(tc, src, tag):
+    """the statement limits around the one at which the generator stops splitting this program (found by bisection on the number of C files)"""
+    lo, hi = 1, 20000
+    n_hi = nfiles(tc, src, hi, tag)
+    n_lo = nfiles(tc, src, lo, tag)
+    if n_hi is None or n_lo is None or n_lo <= n_hi:
+        return []
+    while hi - lo > 1:
+        mid = (lo + hi) // 2
+        n = nfiles(tc, src, mid, tag)
+        if n is None:
+            return []
+        if n > n_hi:
+            lo = mid
+        else:
+            hi = mid
+    # hi = smallest limit without splitting; the interesting limits lie at and just below it
+    return sorted(set(max(1, hi - k) for k in (0, 1, 2, 3, 4, 6, 8, 11, 15, 20, 30)) | {hi + 1})
+
+
 def _worker(args):
     tc, seed, idx, n = args
     ev = Ev()
@@ -89,6 +178,17 @@ def _worker(args):
         pr, std, idh, idlen, smax, lines, plen = case
         src = long_names(P.render(pr), plen, 0)
         copts = list(std) + list(idh) + (["-Cidlen=%d" % idlen] if idlen is not None else []) + (["-Csmax=%d" % smax] if smax is not None else []) + list(lines)
+        if plen % 2 == 0 and idlen is None and not P.decls_of(pr).get("tmpls") and len(P.decls_of(pr)["funcs"]) >= 2:
+            # a third of the cases: the functions live in a separately compiled unit (their C names are link-time globals)
+            h = hashlib.sha256(repr((src, copts, "split")).encode()).hexdigest()[:14]
+            f, nt = check_split(tc, pr, max(plen, 58), copts, ev, h)
+            ev.case(h, nt, sample={"two_units": True, "options": copts, "prefix_len": max(plen, 58)} if nt and len(ev.samples) < 2 else None, classes=["two_units"] + ["opt_" + c.split("=")[0] for c in copts])
+            if f is not None:
+                f2, _ = check_split(tc, pr, max(plen, 58), copts, Ev(), h + "r")
+                if f2 is None:
+                    ev.inconclusive += 1
+                    return None
+            return f
         run_it = True
         if idlen is not None and K6_KNOWN:
             ev.excluded_known["C16-K6-idlen-vs-prebuilt-libs"] += 1
@@ -107,12 +207,62 @@ def _worker(args):
     return result(ev, [f] if f else [])
 
 
+def _smax_worker(args):
+    tc, seed, idx, nprog = args
+    from hypothesis import given, settings, HealthCheck, Phase, seed as hseed
+    ev = Ev()
+    progs = []
+
+    @hseed(derive_seed(seed, "c16smax", idx))
+    @settings(max_examples=nprog, database=None, deadline=None, suppress_health_check=list(HealthCheck), phases=[Phase.generate])
+    @given(P.programs(P.Profile(size=9, abnormal=False)))
+    def t(pr):
+        progs.append(pr)
+    t()
+    fails = []
+    for pr in progs:
+        src = P.render(pr)
+        tag = hashlib.sha256(src.encode()).hexdigest()[:12]
+        for smax in smax_window(tc, src, tag):
+            for std in ([], ["-Cold"]):
+                copts = std + ["-Csmax=%d" % smax]
+                h = hashlib.sha256(repr((src, copts)).encode()).hexdigest()[:14]
+                f, nt = check(tc, src, copts, ev, h)
+                ev.case(h, True, sample={"options": copts, "smax_window": True} if len(ev.samples) < 1 else None, classes=["smax_window"])
+                if f is not None:
+                    f2, _ = check(tc, src, copts, Ev(), h + "r")
+                    if f2 is not None:
+                        fails.append(f)
+                        return result(ev, fails)
+                    ev.inconclusive += 1
+    return result(ev, fails)
+
+
 def run(ctx):
     n = ctx.n(14, 150)
+    ctx.pmap(_smax_worker, [(ctx.tc, ctx.seed, i, 1 if ctx.quick else 6) for i in range(16)])
+    if ctx.fails:
+        return
     ctx.pmap(_worker, [(ctx.tc, ctx.seed, i, n) for i in range(16)])
 
 
 def replay(ctx, case):
+    if case.get("split"):
+        base = os.path.join(R.WORK, "c16sr-%d" % os.getpid())
+        shutil.rmtree(base, ignore_errors=True)
+        os.makedirs(base)
+        try:
+            o, exe = build_split(ctx.tc, base, case["lib"], case["client"], case["copts"])
+            if o is not None:
+                return Fail({"kind": "split-" + o.kind, "site": o.site, "copts": " ".join(case["copts"]), "what": "two-unit build: %s" % o.brief()[:300]}, case)
+            e = aldor.run_exe(exe, base)
+            got = aldor.marker_lines(e)
+            cls = "signal%s" % e.sig if e.sig else ("ok" if e.rc == 0 else "fail")
+            if got != case["want"] or cls != case["wcls"]:
+                return Fail({"kind": "split-behaviour-differs", "copts": " ".join(case["copts"]), "exit": cls, "what": "two-unit executable: exit %s, output differs from the expected lines" % cls}, case)
+            return None
+        finally:
+            shutil.rmtree(base, ignore_errors=True)
     f, _ = check(ctx.tc, case["src"], case["copts"], Ev(), "replay", case.get("run", True))
     if f is not None:
         f.replay = case
